@@ -26,6 +26,13 @@ func init() {
 				return errs(1)
 			}
 			return ok(obool(good))
+		case 5: // a session of calls whose results are kept, not copied (c02_session.go)
+			return c02session(args[1:])
+		case 6: // the same calls from concurrent goroutines (c02_session.go)
+			if len(args) < 2 || len(args[1]) != 1 {
+				return []string{"9"}
+			}
+			return c02concurrent(int(ai(args[1][0])), args[2:])
 		}
 		return []string{"9"}
 	}})
